@@ -556,9 +556,13 @@ class RegexParser:
                 raise RegExpError("Unterminated unicode escape")
             if not hex_digits:
                 raise RegExpError("Empty unicode escape")
+            # Hexadecimal digits only: int() would also take a sign, blanks,
+            # underscores between digits and a 0x prefix
+            if any(c not in "0123456789abcdefABCDEF" for c in hex_digits):
+                raise RegExpError(f"Invalid unicode escape: {hex_digits}")
             try:
                 return Char(chr(int(hex_digits, 16)))
-            except ValueError:
+            except (ValueError, OverflowError):
                 raise RegExpError(f"Invalid unicode escape: {hex_digits}")
         else:
             # \uXXXX form
